@@ -44,12 +44,14 @@ PROPS = {
                       "reads, EOF or error at any point) and every writer failure point, unbounded: the bytes written are exactly the "
                       "concatenation of hex_min(len) CRLF data CRLF per piece, followed by 0 CRLF CRLF iff the reader reported end of stream; "
                       "a reader error ends the output without the terminating chunk; a writer error leaves a prefix; the returned count "
-                      "is payload+3; all indexing in bounds, every unwrap/unimplemented unreachable, the loop terminates on finite streams.",
+                      "is payload+3; all indexing in bounds, every unwrap/unimplemented unreachable, the loop terminates on finite streams. Read-back (unit respparse): a chunked reader written from "
+                      "RFC 7230 section 4.1 applied to that encoding followed by anything recovers exactly the concatenation of the pieces, stops at the terminating chunk and leaves the rest "
+                      "(thm_chunked_reads_back: hex_min is hexadecimal without CR / LF and reads back as the length).",
         "level_note": "Assumed contracts of futures-io/futures-lite read and write_all (contracts/io.pre.rs); streams are finite and shorter "
                       "than 2^64-3 bytes; byte-string literal axioms are generated from the literal tokens; async/.await removed (D1/D2): "
                       "cancellation between chunks is not covered. The reader contract's 'Ok(0) only at end of "
                       "stream' is proved for EventReceiver::poll_read in unit sse (C11; it did not hold before the repair 371a514: an event with empty data encoded to 0 bytes).",
-        "verus": ["chunked"],
+        "verus": ["chunked", "respparse"],
         "verus_thorough": [],
         "kani": [],
         "witness": "c07",
@@ -62,7 +64,7 @@ PROPS = {
         ],
         "not_covered": [
             "cancellation of the future between chunks",
-            "the call site in write_http_response (format!-built head; see C06)",
+            "the call site in write_http_response (proved in unit respwrite, C06)",
         ],
     },
     "C11": {
@@ -522,7 +524,8 @@ PROPS = {
         "technique": "Verus on the whole real write_http_response (format!/write! expanded piece by piece by rule R9) against a concrete "
                      "specification ser(resp, close) = head ++ framed body over the writer / reader event model; copy_async and "
                      "copy_chunked_async used through their proved contracts (use_contract); the duplicate-guard let-regions and "
-                     "ResponseBody::len / is_empty as before; theorems over the contract; bounded stand-in c06 for the parse-back",
+                     "ResponseBody::len / is_empty as before; theorems over the contract, among them the read-back by an HTTP/1.1 reader written from RFC 7230 (unit respparse); "
+                     "bounded stand-in c06 for the same on concrete responses",
         "level_text": "Deductive, unbounded, for every normal response, every body source and every pattern of partial socket writes the "
                       "writer contract allows: write_http_response writes exactly status line (HTTP/1.1 SP 3-digit code SP reason CRLF) ++ "
                       "automatic fields (content-type iff a type is set, connection: close iff closing, then exactly one of content-length = "
@@ -530,14 +533,18 @@ PROPS = {
                       "order added (name: value CRLF, value as ISO-8859-1) ++ CRLF ++ the body (exactly n bytes for a declared length n, "
                       "valid chunked coding otherwise, C07); on any failure a prefix of that; a non-normal response or one that would "
                       "duplicate an automatic field is refused with the specific error before any byte is written; a known-length body that "
-                      "delivers fewer bytes than declared is never reported as sent.",
+                      "delivers fewer bytes than declared is never reported as sent. Read-back (unit respparse, theorems over ser): a reader written from RFC 7230 section 3 (status-line, "
+                      "*(field-name \":\" OWS value OWS CRLF), CRLF) applied to ser's head followed by anything returns exactly the status code, the automatic fields by their fixed rules, then the "
+                      "response's own fields in the order added with their values minus surrounding blanks, and leaves the body untouched (thm_head_reads_back); the content-length numeral reads back as "
+                      "the number of body bytes that follow (thm_content_length_is_body_length); an RFC 7230 section 4.1 chunked reader recovers from a body of unknown length exactly the bytes the source "
+                      "delivered and stops at the terminating chunk (thm_chunked_reads_back, thm_unknown_length_body_reads_back).",
         "level_note": "Assumed: std's formatting of `{}` placeholders is concatenation of the literal pieces and the arguments' Display output "
                       "(decimal for integers, the text for strings); reason_phrase / ContentType::as_str are functions of their argument (their "
                       "texts are uninterpreted); what a body source delivers is a function of the body value (files do not change while sent); "
                       "the statement converting a field value to ISO-8859-1 is replaced by a stand-in keyed to its exact tokens (rule S1). "
-                      "That an independent HTTP parser recovers code, fields and body from those bytes (no CR/LF in names and values, token "
-                      "names) is checked only by the bounded stand-in c06.",
-        "verus": ["respwrite", "respguard", "copy", "chunked"],
+                      "The read-back theorems hold under the property's own hypotheses, stated as preconditions: a three-digit code, names non-empty and free of ':' CR LF, values free of CR LF, and "
+                      "reason phrase / content-type text free of CR LF (their texts are uninterpreted here; the bounded stand-in c06 checks every code and type on the real tables).",
+        "verus": ["respwrite", "respguard", "copy", "chunked", "respparse"],
         "verus_thorough": [],
         "kani": [],
         "witness": "c06",
@@ -546,7 +553,7 @@ PROPS = {
                         "assumed: BodyAsyncReader delivers a prefix of body_events(body); in-memory bodies deliver their bytes then end of stream; streams shorter than 2^64-3 bytes",
                         "assumed: derive(PartialEq) on ContentType is structural equality; Vec::extend(b\"..\") == extend_from_slice (rule R10)",
                         "rule S1 stand-ins: extend_latin1 for the chars().map(..) statement, ek_unexpected_eof() for the opaque ErrorKind constructor"],
-        "not_covered": ["parse-back by an independent HTTP parser (bounded stand-in c06 only)", "the texts of reason phrases and content types",
+        "not_covered": ["the texts of reason phrases and content types (uninterpreted; that they contain no CR / LF is a hypothesis of the read-back theorems, checked by c06 on the real tables)",
                         "BodyAsyncReader / EventReceiver internals (assumed reader contract)"],
     },
 
@@ -594,7 +601,7 @@ PROPS = {
 # are listed in its evidence as notes (they are another property's alarm, or an unproved supporting contract).
 UNIT_OWNER = {
     "time": "C16", "chunked": "C07", "headers": "C14", "copy": "C09", "body": "C09", "conn": "C05", "head": "C01",
-    "parse": "C02", "logset": "C19", "logwriter": "C19", "jsonl": "C17", "cookie": "C15", "timefmt": "C16", "tryread": "C02", "logwrap": "C18", "cookiereq": "C15", "framing": "C03", "respguard": "C06", "respwrite": "C06", "errresp": "C20", "sse": "C11", "logorder": "C18",
+    "parse": "C02", "logset": "C19", "logwriter": "C19", "jsonl": "C17", "cookie": "C15", "timefmt": "C16", "tryread": "C02", "logwrap": "C18", "cookiereq": "C15", "framing": "C03", "respguard": "C06", "respwrite": "C06", "errresp": "C20", "sse": "C11", "logorder": "C18", "respparse": "C06",
 }
 SCOPE = {
     # total request reading also needs the parsers to be panic-free
